@@ -23,6 +23,8 @@ var verifC18Templates = []struct{ pre, post string }{
 	{"/* ", ""},
 	{"select `", ""},
 	{"select \"", ""},
+	{"select '", "' from"},   // a syntax error after a (possibly multi-line) quoted token
+	{"select `", "` +\n+"},
 }
 
 func verifC18Text(tag string, n int) string {
@@ -46,9 +48,10 @@ func VerifC18Totality() {
 		se, ok := err.(*parser.SyntaxError)
 		verifAssert("a parse failure is a syntax error", ok)
 		if ok {
+			// lines of the input: LF, CR and CR LF each end one line
 			lines := 1
 			for i := 0; i < len(src); i++ {
-				if src[i] == '\n' || src[i] == '\r' {
+				if src[i] == '\n' || (src[i] == '\r' && (i+1 == len(src) || src[i+1] != '\n')) {
 					lines++
 				}
 			}
@@ -100,6 +103,17 @@ var verifC18Queries = []string{
 	"select %s from stdin",
 	"select - -1, - - -a, -(-2), ! !true, +a, - +1 from t",
 	"select * from t natural left join u natural right outer join v full outer join w on v.a = w.a left join x using (a)",
+	"select sum(a) over (order by b rows between 0 preceding and 0 following), count(a) over (order by b rows 0 preceding), max(a) over (order by b rows between current row and unbounded following) from t",
+	"select case a when 1 then %s when 2 then 'y' end, nullif(a, 0), coalesce(a, b, 1) from t",
+	"select * from csv(',', `f.csv`, 'utf8', true) as c cross join ltsv(`l.ltsv`) l cross join json_table('a.b', `j.json`) j cross join fixed('[1, 3]', `x.txt`) f",
+	"select a from t union select a from u union all (select a from v intersect all select a from w) except all select 1",
+	"select a from t limit 3 rows only",
+	"select a from t fetch first 10 percent with ties",
+	"select json_object(a, b as c), json_agg(a), listagg(a), cursor c is open, cursor c is not in range, cursor c count from t",
+	"select t.*, t.a, t.1, `t 2`.`c d` from t, `t 2` where t.a <> `t 2`.`c d`",
+	"select cast_me(a), @v := 1, @v := @v + 1 from t",
+	"select a from t where a is unknown or a is not unknown or not a is null",
+	"select a as `as`, b as `select`, `from`.`where` from `from`",
 }
 
 // The canonical printed form of each query above, written by hand from the source: the same tokens
@@ -127,6 +141,17 @@ var verifC18Canon = []string{
 	"SELECT %s FROM STDIN",
 	"SELECT - -1, - - -a, -(-2), ! !TRUE, +a, - +1 FROM t",
 	"SELECT * FROM t NATURAL LEFT JOIN u NATURAL RIGHT OUTER JOIN v FULL OUTER JOIN w ON v.a = w.a LEFT JOIN x USING (a)",
+	"SELECT SUM(a) OVER (ORDER BY b ROWS BETWEEN 0 PRECEDING AND 0 FOLLOWING), COUNT(a) OVER (ORDER BY b ROWS 0 PRECEDING), MAX(a) OVER (ORDER BY b ROWS BETWEEN CURRENT ROW AND UNBOUNDED FOLLOWING) FROM t",
+	"SELECT CASE a WHEN 1 THEN %s WHEN 2 THEN 'y' END, NULLIF(a, 0), COALESCE(a, b, 1) FROM t",
+	"SELECT * FROM CSV(',', `f.csv`, 'utf8', TRUE) AS c CROSS JOIN LTSV(`l.ltsv`) l CROSS JOIN JSON_TABLE('a.b', `j.json`) j CROSS JOIN FIXED('[1, 3]', `x.txt`) f",
+	"SELECT a FROM t UNION SELECT a FROM u UNION ALL (SELECT a FROM v INTERSECT ALL SELECT a FROM w) EXCEPT ALL SELECT 1",
+	"SELECT a FROM t LIMIT 3 ROWS ONLY",
+	"SELECT a FROM t FETCH FIRST 10 PERCENT WITH TIES",
+	"SELECT JSON_OBJECT(a, b AS c), JSON_AGG(a), LISTAGG(a), CURSOR c IS OPEN, CURSOR c IS NOT IN RANGE, CURSOR c COUNT FROM t",
+	"SELECT t.*, t.a, t.1, `t 2`.`c d` FROM t, `t 2` WHERE t.a <> `t 2`.`c d`",
+	"SELECT CAST_ME(a), @v := 1, @v := @v + 1 FROM t",
+	"SELECT a FROM t WHERE a IS UNKNOWN OR a IS NOT UNKNOWN OR NOT a IS NULL",
+	"SELECT a AS `as`, b AS `select`, `from`.`where` FROM `from`",
 }
 
 func verifFmt1(q, lit string) string {
